@@ -1,13 +1,26 @@
 HOOK_COMMITS = ["70cbc3d"]
+ALL_TLC = ["C01", "C09", "C10", "C18"]
 NOTES = ("Model-based verification with explicit TLA+ specifications (spec/*.tla), checked by TLC and bound to the code by "
          "replaying TLC-generated transitions/scenarios into the real library and by validating recorded traces of the real "
          "library against trace specs. See DESIGN.md. Exit codes: 0 held, 1 VIOLATION, 2 machinery error (never a verdict).")
 ENGINES = [
-    dict(name="tlc", path="/opt/veriftools/tla/tla2tools.jar", serves_properties=["C09", "C10"], kind_free_text="explicit-state model checker for TLA+ (exhaustive MC, scenario/edge emission, trace validation)"),
-    dict(name="vh", path="harness/cmd/vh", serves_properties=["C09", "C10"], kind_free_text="Go conformance harness rebuilt from /repo's working tree with -tags verif"),
+    dict(name="tlc", path="/opt/veriftools/tla/tla2tools.jar", serves_properties=ALL_TLC, kind_free_text="explicit-state model checker for TLA+ (exhaustive MC, scenario/edge emission, trace validation)"),
+    dict(name="vh", path="harness/cmd/vh", serves_properties=ALL_TLC, kind_free_text="Go conformance harness rebuilt from /repo's working tree with -tags verif"),
 ]
 NOT_APPLICABLE = {}
 CHECKS = {
+    "C01": dict(
+        engine="tlc", level="model_checking",
+        technique="TLA+ spec Rules.tla: per-kind mechanism (validInputSize/eq transcribed branch by branch) = contract InSet/Measure model-checked on the window; the TLC-emitted verdict for every (rule, bounds, kind, value) of the window replayed through every carrier of the real library; seeded random calls judged by TLC in constant mode (Judge_Rules.tla)",
+        text="TLC checks that the transcribed mechanism equals the contract (verdict a function of rule, bounds and measure only) on bounds -3..3 (quick) / -8..8 (thorough) x all 8-bit values; Gen_Rules emits the contract's verdict for 93 800 (quick) / 550 800 (thorough) vectors - 8 rules x all 49 bound pairs (lo>hi included) x 16 kinds, every non-zero int8 and uint8 value, symbolic exterior points for the wide kinds, half-integer floats, 1..6-rune strings over 1/2/3/4-byte alphabets, slices of 1..6 elements - and each is executed on the real library through struct tag, struct rule-map override, Var, Map and Url (383 600 / 2 278 000 calls); 20 000 / 1 000 000 recorded random calls with bounds up to 10^6 and beyond 2^32 at bound-1/bound/bound+1 are judged by TLC against the contract.",
+        note="Trusted: TLC, the harness's concretisation of abstract values (order-preserving symbolic points for 64-bit extremes and bounds beyond 2^32). Exhaustive only inside the window; a rule instance counts as violated when it produced one or more clauses. Carve-outs in the evidence assumptions.",
+    ),
+    "C18": dict(
+        engine="tlc", level="model_checking",
+        technique="TLA+ spec Rules.tla (carrier-free contract) + Judge_Rules.tla: TLC-emitted verdicts replayed through nine carriers of the real library; recorded (value, rule list) observations of all carriers judged by TLC for mutual agreement and, for interval rules, against the contract",
+        text="The contract Violated(rule, lo, hi, measure) has no carrier argument; the 93 800 (quick) / 550 800 (thorough) scalar vectors of the C01 window (plus strings containing & = ? % + #) are sent through struct field, Var, map[string]T, map[string]interface{}, []map[string]T and URL queries with one or many shuffled parameters, raw and percent-encoded (492 800 / 2 964 800 calls) and every carrier must show the model's verdict; 8 000 / 200 000 recorded (value, 1-3 rule list) pairs over 8 interval and 22 fixed-argument format rules are judged by TLC: all carriers must report the same set of violated rules with the same clause bodies.",
+        note="Format rules are checked for carrier agreement only (their languages are C05): exploration level for that half. map[string]interface{} is the known finding D14-mapiface (values never unwrapped; cannot be repaired without breaking a pinned test). Raw URL values containing & = ? + % # are outside the domain.",
+    ),
     "C10": dict(
         engine="tlc", level="model_checking",
         technique="TLA+ spec LRUConc.tla model-checked with the lock table measured on the real code via the verif hook; recorded concurrent histories of the real cache checked for linearizability by TLC (Trace_LRUConc.tla, silent linearization steps); race detector as run-time monitor",
